@@ -29,6 +29,11 @@ CLAIMED["C14"] = dict(
     text="For every poll function of the send/receive buffers: Pending is never returned on a path that did not register the waker (lost wake-up), each side parks in and wakes the right waker slot, every buffer state change that can unblock the other side reaches the corresponding wake on all paths (can_write sampled before take, close wakes the reader, a completed write wakes index i+1, a consumed message calls wake_next), next_op returns Pending only if the waker was accepted and advances `next` only after a ready operation, and the cursors/woken_at are written only by their owner operation with the documented wrap/max expressions. Decides waker and cursor discipline, not byte-exact queue equivalence or deadlock freedom over all schedules.",
     ref="§3 C14")
 
+CLAIMED["C15"] = dict(
+    technique="static analysis: method whitelist (who-may-call) on the active deque, dominator-based guard polarity, loop-shape and poll-the-rest pairing over the MIR CFG, WAKE-1 may-analysis with one reasoned infeasible-path exception whose premises are checked",
+    text="Output order equals input order because the active window is only ever used as a FIFO (push_back/pop_front) and the head is popped only when its own check_ready is true; while the head is pending every other active item is polled before Pending is returned; the refill loop keeps exactly `capacity` items in flight and pushes the item it polled; Pending is never returned without a registered waker (one frozen exception: empty window and source not done, justified by NonZero capacity and checked); validated_seq_join chains validate_record(own index) to every item and keeps the validator alive. Decides queue discipline, not liveness over completion orders.",
+    ref="§3 C15")
+
 NOT_APPLICABLE = {
     "C01": "end-to-end numerical equality of the MPC histogram with a plaintext reference over all inputs/shardings: no clause of it is visible in code shape; static analysis in reach cannot bound it (DESIGN.md §4)",
     "C07": "functional correctness of arithmetic/Boolean circuits over all operand values is numerical; would need symbolic execution of the circuits, a different technique family (DESIGN.md §4)",
